@@ -145,6 +145,58 @@ Theorem C09_client_unguarded_refuted :
 Proof. exact client_unguarded_refuted. Qed.
 Print Assumptions C09_client_unguarded_refuted.
 
+(* (e) header values: op.getAccessToken on the very bytes of the Authorization header - for every header and
+   every behaviour of strings.ToLower - never slices out of range, and the userinfo endpoint answers it once *)
+Theorem C09_bearer_total :
+  forall (lower : string -> string) (token_ok : string -> bool) (h : string),
+    get_access_token lower false h <> Panic /\
+    match bearer_userinfo lower token_ok false h with OResp _ _ | OGrant => True | _ => False end.
+Proof. exact bearer_total. Qed.
+Print Assumptions C09_bearer_total.
+
+(* what is handed on as the access token is exactly what follows the scheme word in the header *)
+Theorem C09_bearer_token_is_suffix :
+  forall (lower : string -> string) (h t : string),
+    get_access_token lower false h = Ok t -> exists before, h = String.append before (String.append "Bearer " t).
+Proof. exact get_access_token_suffix. Qed.
+Print Assumptions C09_bearer_token_is_suffix.
+
+(* matching the scheme on a lower-cased copy and slicing the original at that offset is safe exactly under the
+   assumption it makes: lower-casing preserves the byte length ... *)
+Theorem C09_bearer_ci_safe_if_length_preserved :
+  forall (lower : string -> string) (h : string),
+    (forall s, String.length (lower s) = String.length s) -> get_access_token lower true h <> Panic.
+Proof. exact get_access_token_ci_safe. Qed.
+Print Assumptions C09_bearer_ci_safe_if_length_preserved.
+
+(* ... which strings.ToLower does not (0xFF -> U+FFFD): seeded regression, "\xff\xff\xff\xff Bearer abc" *)
+Theorem C09_bearer_ci_refuted : exists h, get_access_token lower_ff true h = Panic.
+Proof. exact bearer_ci_refuted. Qed.
+Print Assumptions C09_bearer_ci_refuted.
+
+(* (c') client authentication by client_assertion: every endpoint that accepts client credentials, both routers,
+   private_key_jwt enabled or not, assertion type jwt-bearer / absent / other, assertion absent / valid / failing
+   before or at the key lookup, with or without Basic credentials: one error response or the grant logic *)
+Theorem C09_client_auth_total :
+  forall a : ashape, match ahandler all_return a with OResp _ _ | OGrant => True | _ => False end.
+Proof. exact client_auth_total. Qed.
+Print Assumptions C09_client_auth_total.
+
+(* an assertion that does not verify ends the run at the caller of VerifyJWTAssertion, whatever follows *)
+Theorem C09_assertion_error_then_stop :
+  forall s a st c pre post,
+    verifies a = false -> forallb passes pre = true ->
+    run (pre ++ verify_assertion all_return s a st c ++ post) = OResp st c.
+Proof. exact verify_assertion_stops. Qed.
+Print Assumptions C09_assertion_error_then_stop.
+
+(* each of the three returns (AuthorizePrivateJWTKey, ClientJWTAuth, ParseTokenRevocationRequest) is needed:
+   without it a generated request reads the nil profile (seeded regression: the revocation endpoint) *)
+Theorem C09_assertion_every_return_needed :
+  forall s : asite, exists a, ashape_wf a = true /\ ahandler (all_but s) a = OPanic.
+Proof. exact every_assertion_return_needed. Qed.
+Print Assumptions C09_assertion_every_return_needed.
+
 (* the property predicate holds on the model's answer to every input *)
 Theorem C09_spec_model : forall i : input, spec i (model i) = true.
 Proof. exact spec_model. Qed.
